@@ -29,12 +29,12 @@ ASSUMPTIONS = ["'conflict' = two link definitions producing the same (section, o
 CASE_TIMEOUT = 120
 WALL = {"quick": 900, "thorough": 7200}
 REQUIRED = {"relabel_runs": 500, "permute_runs": 200, "history_runs": 200, "repeat_runs": 200, "file_order_runs": 30,
-            "mixed_nrexcl_cases": 50, "fragment_cases": 20, "file_order_runs_unrestricted": 40}
+            "mixed_nrexcl_cases": 50, "fragment_cases": 20, "file_order_runs_unrestricted": 40, "termini_relabel_runs": 100, "termini_modified": 100}
 
 
 def plan(tier, seed):
     n = 900 if tier == "quick" else 20000
-    return [["meta", i] for i in range(n)] + [["fileorder", i] for i in range(n // 6)]
+    return [["meta", i] for i in range(n)] + [["fileorder", i] for i in range(n // 6)] + [["termini", i] for i in range(n // 6)]
 
 
 def setup():
@@ -135,10 +135,69 @@ def run_fileorder(cid, rng, workdir, res):
     return res
 
 
+def run_termini(cid, rng, workdir, res):
+    """protein-like force field with N-ter / C-ter modifications (applied by default to the residues with the lowest
+    and the highest residue id): relabelling node keys / shuffling node order must not move them"""
+    import json as _json
+    names = ["GLY", "ALA", "SER"][:rng.randint(1, 3)]
+    L = []
+    for nm in names:
+        na = rng.randint(1, 3)
+        L += ["[ moleculetype ]", "%s 1" % nm, "[ atoms ]"]
+        for i in range(na):
+            L.append("%d %s 1 %s %s %d 0.0 72.0" % (i + 1, rng.choice(["P1", "P2", "C1"]), nm, "BB" if i == 0 else "SC%d" % i, i + 1))
+        if na > 1:
+            L.append("[ bonds ]")
+            for i in range(1, na):
+                L.append("BB SC%d 1 0.3 1000" % i)
+    L += ["[ link ]", 'resname "%s"' % "|".join(names), "[ bonds ]", "BB +BB 1 0.350 1250"]
+    for mname, q in (("N-ter", 1.0), ("C-ter", -1.0)):
+        L += ["[ modification ]", mname, "[ atoms ]", 'BB {"resname": "%s", "replace": {"atype": "Q%s", "charge": %s}}' %
+              ("|".join(names), "d" if q > 0 else "a", q)]
+    text = "\n".join(L) + "\n"
+    n = rng.randint(2, 8)
+    start = rng.choice([1, 1, 4])
+    graph = {"kind": "lin", "nodes": [{"key": i, "resname": rng.choice(names), "resid": start + i} for i in range(n)],
+             "edges": [(i, i + 1, None) for i in range(n - 1)]}
+    case = {"files": [("prot.ff", text)], "inpath": ["prot.ff"], "graph": graph,
+            "descr": {"layout": "protein-termini", "graph": RG.describe(graph)}}
+    with open(os.path.join(workdir, "prot.ff"), "w") as fh:
+        fh.write(text)
+    RG.to_json(graph, os.path.join(workdir, "case.json"))
+    res["sig"] = sig_of([text, graph])
+    res["sample"] = case["descr"]
+    r, p = run(case, workdir, "case.json", "base.itp")
+    if r["status"] != "ok":
+        res["status"] = "rejected"
+        violation(res, "rejects-valid-input:termini:%s" % r.get("exc_type"), r["error"], PC.witness(case))
+        return res
+    base = canon(p)
+    res["nontrivial"] = True
+    # the termini must be modified in the base run (otherwise the stratum observes nothing)
+    ter = [a for a in base["atoms"] if a[0] in ("Qd", "Qa")]
+    bump(res, "termini_modified", len(ter))
+    for t in range(2):
+        g2, mode = relabel(rng, graph)
+        RG.to_json(g2, os.path.join(workdir, "relabel.json"))
+        r2, p2 = run(case, workdir, "relabel.json", "t.itp")
+        bump(res, "termini_relabel_runs")
+        if r2["status"] != "ok":
+            violation(res, "relabel-rejected:termini:%s" % r2.get("exc_type"), "relabelled (%s) protein graph rejected: %s" %
+                      (mode, r2["error"]), PC.witness(case, {"relabelled_graph": g2}))
+            continue
+        d = first_diff(base, canon(p2))
+        if d:
+            violation(res, "relabel-changes-output:terminal-modifications", "terminal modifications move when node keys / node order "
+                      "change (%s): %s" % (mode, d), PC.witness(case, {"relabelled_graph": g2}))
+    return res
+
+
 def run_case(cid, rng, workdir):
     res = new_result()
     if cid[0] == "fileorder":
         return run_fileorder(cid, rng, workdir, res)
+    if cid[0] == "termini":
+        return run_termini(cid, rng, workdir, res)
     neutral = rng.random() < 0.35
     kw = dict(nmin=2, nmax=7, max_links=4, link_opts={"p_remove": 0.05, "p_replace": 0.15, "p_edge": 0.15,
                                                       "linktypes": True, "p_nonedge": 0.0})
@@ -250,8 +309,20 @@ def run_case(cid, rng, workdir):
 
     # (c) history: other calls first ----------------------------------------------------------------------------
     nprev = rng.randint(1, 3)
+    shared_inpath = [Path(workdir) / p_ for p_ in case["inpath"]]        # one list object handed to several calls
+    shared_copy = list(shared_inpath)
+    if rng.random() < 0.3:
+        # an earlier call that uses a shipped library together with the caller's own list of input files
+        from ..monitors import pipeline as _pl
+        _pl.run_gen_params(name="PEO", outpath=Path(workdir) / "libcall.itp", inpath=shared_inpath, lib=["martini3"],
+                           seq=["PEO:3"], seq_file=None)
+        bump(res, "history_library_calls")
+        if shared_inpath != shared_copy:
+            violation(res, "call-modifies-its-arguments", "gen_params(lib=...) changed the caller's inpath list from %d to %d "
+                      "entries" % (len(shared_copy), len(shared_inpath)), w())
+            shared_inpath = list(shared_copy)
     for k in range(nprev):
-        other = paramcase.build(rng, profile="full", nmin=1, nmax=5)
+        other = paramcase.build(rng, profile="full", nmin=1, nmax=5, link_opts={"p_remove": 0.3, "p_replace": 0.3})
         sub = os.path.join(workdir, "hist%d" % k)
         os.makedirs(sub, exist_ok=True)
         paramcase.write_case(other, sub)
